@@ -251,6 +251,9 @@ def post_cases(draw):
             "own_off": [draw(st.floats(-3.5, 3.5)) for _ in range(d)],    # unused by construction (kept for shrinking stability)
             "lo_w": [draw(st.sampled_from([3.0, 6.0, 12.0, 40.0, 100.0, draw(st.floats(0.3, 3))])) for _ in range(d)],
             "hi_w": [draw(st.sampled_from([3.0, 6.0, 12.0, 40.0, 100.0, draw(st.floats(0.3, 3))])) for _ in range(d)]}
+    # bounds that stand for "none" (+-1e10, +-1e12 are what users write): the conditioning coordinate is in the high-density region,
+    # so the quantifier covers bounds millions to 1e12 conditional widths away (Gaussian family only: its far tails are harmless)
+    case["far_bounds"] = draw(st.sampled_from([None, None, None, None, 1e6, 1e9, 1e12]))
     # a whole-number conditioning point may be held in an integer array
     case["int_point"] = draw(st.sampled_from([False, False, False, False, True]))
     if case["int_point"]:
@@ -336,7 +339,8 @@ def setup_problem(case):
         w = max(0.5 * (above[-1] - above[0]), 1e-6 * width[i])   # ~ one standard deviation of the conditional
         if abs(theta[i] - mode) > 3.5 * w:
             raise Inconclusive("conditioning coordinate outside the conditional's high-density region")
-        lo, hi = mode - case["lo_w"][i] * w, mode + case["hi_w"][i] * w
+        far = case.get("far_bounds") if case["family"] == "gauss" else None
+        lo, hi = mode - case["lo_w"][i] * w * (far or 1.0), mode + case["hi_w"][i] * w * ((far or 1.0) if i % 2 == 0 else 1.0)
         lo, hi = min(lo, theta[i] - 0.05 * w), max(hi, theta[i] + 0.05 * w)
         # support limits of the product families
         if case["family"] == "product" and case["kinds"][i] in ("gamma", "lognormal", "beta"):
@@ -395,6 +399,9 @@ def check_conditionals(case, post, theta, bounds, info, axes, probs, ctx):
             raise Violation("conditional-match", f"{case['family']} parameter {i}: tabulated density differs from the true conditional by {err:.3g} of its peak")
         # coverage of the part of the bounds where the conditional exceeds e^-7.9 of its peak
         scan = np.linspace(lo, hi, 6001)
+        if hi - lo > 400 * w:
+            # (bounds far wider than the conditional: look where the conditional is)
+            scan = np.linspace(max(lo, mode - 15 * w), min(hi, mode + 15 * w), 6001)
         lps = line_logp(post, theta, i, scan)
         big = scan[lps > lps.max() - 7.9]
         step = scan[1] - scan[0]
